@@ -94,7 +94,8 @@ struct bresenham_line_rasterizer
             // transpose coordinate system back to proper form if needed
             *d_first++ = needs_flip ? point_t{y, x} : point_t{x, y};
             error_term += slope;
-            if (error_term >= 0.5)
+            // never step past the end point's row: the line stays inside the end points' bounding box
+            if (error_term >= 0.5 && y != end.y)
             {
                 --error_term;
                 y += y_increment;
